@@ -225,7 +225,7 @@ pub struct Sut {
     pub next_ack: u64,
 }
 
-pub const ACK_TIMEOUT: Duration = Duration::from_secs(20);
+pub const ACK_TIMEOUT: Duration = Duration::from_secs(90);
 
 impl Sut {
     pub fn open(cfg: Cfg) -> Result<Self, String> {
